@@ -56,6 +56,32 @@ class Prop(common.PropertyCheck):
                    'levels': [(-6, 60), (-3, 12), (-40, 3), (0, 20)][i % 4], 'idt': ['int32', 'int64', 'int16', 'int8'][(i // 2) % 4],
                    'req': ['none', 'subset', 'all_reordered', 'scalar'][(i // 3) % 4], 'negdata': True, 'dupnames': False, 'scform': ['pos', 'default'][i % 2], 'bad': None, 'neg': False}
 
+        # the channels of the curves left to their default (one curve per channel of the sample) while fewer curves are supplied: refused, however many channels are requested
+        for i in range(self.budget(18, 120)):
+            yield {'k': 'default_short', 'cont': ['array', 'sample'][i % 2], 'D': 3 + i % 3, 'ncur': 1 + i % 2, 'req': ['same_len', 'scalar', 'none', 'same_len_names'][i % 4], 'seed': rng.randrange(1 << 30)}
+
+    def run_default_short(self, case):
+        import random
+        r = random.Random(case['seed'])
+        D, ncur = case['D'], case['ncur']
+        if case['cont'] == 'sample':
+            d, _ = samples.load(samples.spec_rich(r, N=5, D=D, datatype='I'), name='c06s.fcs')
+        else:
+            d = np.array([[r.randrange(0, 1024) for _ in range(D)] for _ in range(5)], dtype=np.float64)
+        cols = r.sample(range(D), ncur)
+        req = {'same_len': list(cols), 'scalar': cols[0], 'none': None,
+               'same_len_names': [d.channels[c] for c in cols] if case['cont'] == 'sample' else list(cols)}[case['req']]
+        if case['req'] == 'scalar' and ncur != 1:
+            req = list(cols)
+        try:
+            t = FlowCal.transform.to_mef(d, req, [curve(k) for k in range(ncur)])
+        except ValueError:
+            return {'default_short': None}
+        except Exception as e:
+            return {'default_short': 'raised %s instead of ValueError' % type(e).__name__}
+        return {'default_short': '%d curve(s) for a %d-channel %s and no channels for the curves (request %r): not refused; result %s the input' % (
+            ncur, D, case['cont'], req, 'equals' if np.array_equal(np.asarray(t, dtype=float), np.asarray(d, dtype=float)) else 'differs from')}
+
     def build(self, case):
         import random
         r = random.Random(case['seed'])
@@ -157,6 +183,8 @@ class Prop(common.PropertyCheck):
             return self.run_partial(case)
         if case['k'] == 'nonfinite':
             return self.run_nonfinite(case)
+        if case['k'] == 'default_short':
+            return self.run_default_short(case)
         d, names, cols, sc_channels, channels, want, ncur = self.build(case)
         sc_list = [curve(k) for k in range(ncur)]
         out = {'meta': meta_of(d), 'in': arr_bits(d), 'cols': cols, 'want': want, 'ncur': ncur,
@@ -391,6 +419,8 @@ class Prop(common.PropertyCheck):
     def oracle(self, case, impl):
         if case['k'] == 'big':
             return None if impl['big'] is None else '%s sample of %d events: %s' % (case['cont'], case['n'], impl['big'])
+        if case['k'] == 'default_short':
+            return impl['default_short']
         if case['k'] == 'nonfinite':
             return None if impl['nonfinite'] is None else 'non-finite events (%s, channels %s): %s' % (case['cont'], case['req'], impl['nonfinite'])
         if case['k'] == 'partial':
@@ -469,5 +499,7 @@ class Prop(common.PropertyCheck):
             return ('partial', case['layout'], tuple(impl.get('mef_channels', [])))
         if case['k'] == 'nonfinite':
             return ('nonfinite', case['cont'], case['req'])
+        if case['k'] == 'default_short':
+            return ('default_short', case['cont'], case['D'], case['ncur'], case['req'])
         return (case['cont'], case['nc'], case['req'], case['scform'], case['bad'], 'err' if 'err' in impl else 'ok',
                 tuple(impl['cols']) == tuple(sorted(impl['cols'])))
